@@ -1429,7 +1429,16 @@ func (fr *Frame) runDefers() {
 			if !blockReaches(d.block, fr.curBlock) {
 				continue // this return cannot follow the defer statement
 			}
-			unsupp("conditional defer")
+			// conditional defer: the call runs iff control passed through the defer statement
+			passed := fr.blockReach[d.block.Index]
+			before := fr.st.clone()
+			saveReach := fr.reach
+			fr.reach = and(saveReach, passed)
+			fr.execCall(d.d, &d.d.Call)
+			after := fr.st
+			fr.reach = saveReach
+			fr.st = fr.mergeStates([]inEdge{{guard: and(saveReach, passed), st: after}, {guard: and(saveReach, not(passed)), st: before}}, nil)
+			continue
 		}
 		fr.execCall(d.d, &d.d.Call)
 	}
